@@ -63,6 +63,7 @@ func (m *Machine) spawn(name string, fn value, args []value) {
 				return
 			case pathAbort:
 				m.pendingAbort = r
+			case epochExit:
 			case targetPanic:
 				if _, ok := r.v.(goExit); !ok {
 					m.pendingAbort = r // an uncaught panic in a goroutine kills the program
@@ -95,6 +96,28 @@ type interpBug struct {
 }
 
 type goExit struct{}
+
+// epochExit terminates the calling thread without running its deferred calls
+// (the simulated process is gone).
+type epochExit struct{}
+
+// exitAll kills every thread except main (and the caller), then ends the caller.
+func (m *Machine) exitAll() {
+	t := m.cur
+	m.killing = true
+	for _, o := range m.threads {
+		if o.isMain || o == t || o.status == tDone {
+			continue
+		}
+		o.wake <- struct{}{}
+		<-m.exitAck
+	}
+	m.killing = false
+	if t.isMain {
+		return
+	}
+	panic(epochExit{})
+}
 
 // pickNext returns the next thread able to run after t (round robin), or nil.
 func (m *Machine) pickNext(t *gthread) *gthread {
